@@ -171,6 +171,80 @@ pub fn rc1_predict(text: &str) -> Option<String> {
     Some(out)
 }
 
+/// Prediction for strip_comments = true on directive-free, lexically well-formed text: every comment outside the
+/// trivia of a string / escaped identifier is replaced by its separator (a newline if the comment ends with one,
+/// else a blank); the trivia that follows a string / escaped identifier survives raw inside the token's span
+/// (known finding K1) and is followed by one separator per comment in it.
+pub fn rc1_predict_strip(text: &str) -> Option<String> {
+    let toks = lex_opts(text, true).ok()?;
+    let b = text.as_bytes();
+    let mut out = String::new();
+    let mut pos = 0usize;
+    let sep = |c: &str| if c.ends_with('\n') { "\n" } else { " " };
+    for tk in &toks {
+        if tk.start < pos {
+            continue;
+        }
+        if tk.kind == Kind::LineComment || tk.kind == Kind::BlockComment {
+            out.push_str(&text[pos..tk.start]);
+            out.push_str(sep(tk.text));
+            pos = tk.start + tk.text.len();
+        } else if tk.kind == Kind::Str || tk.kind == Kind::EscIdent {
+            let mut p = tk.start + tk.text.len();
+            let mut again = String::new();
+            loop {
+                if p >= b.len() {
+                    break;
+                }
+                if b[p] == b' ' || b[p] == b'\t' || b[p] == 0x0c {
+                    // Space node: emitted again
+                    let s0 = p;
+                    while p < b.len() && (b[p] == b' ' || b[p] == b'\t' || b[p] == 0x0c) {
+                        p += 1;
+                    }
+                    again.push_str(&text[s0..p]);
+                } else if b[p] == b'\n' || b[p] == b'\r' {
+                    // Newline node: not emitted again
+                    while p < b.len() && (b[p] == b' ' || b[p] == b'\t' || b[p] == 0x0c || b[p] == b'\n' || b[p] == b'\r') {
+                        p += 1;
+                    }
+                } else if b[p] == b'/' && p + 1 < b.len() && b[p + 1] == b'/' {
+                    let s0 = p;
+                    while p < b.len() && b[p] != b'\n' {
+                        p += 1;
+                    }
+                    if p < b.len() {
+                        p += 1;
+                    }
+                    again.push_str(sep(&text[s0..p]));
+                } else if b[p] == b'/' && p + 1 < b.len() && b[p + 1] == b'*' {
+                    let s0 = p;
+                    match text[p + 2..].find("*/") {
+                        Some(k) => p = p + 2 + k + 2,
+                        None => return None,
+                    }
+                    again.push_str(sep(&text[s0..p]));
+                } else {
+                    break;
+                }
+            }
+            out.push_str(&text[pos..p]);
+            out.push_str(&again);
+            pos = p;
+        }
+    }
+    out.push_str(&text[pos..]);
+    Some(out)
+}
+
+/// No compiler directive / macro usage: no backtick outside comments and strings.
+pub fn is_directive_free(text: &str) -> bool {
+    match lex_opts(text, false) {
+        Ok(toks) => !toks.iter().any(|t| t.kind == Kind::Backtick),
+        Err(_) => false,
+    }
+}
+
 /// Does `text` contain a K1 trigger site (string / escaped identifier followed by a blank run or a comment,
 /// or — for texts with directives — by a backtick)?
 pub fn has_k1_site(text: &str) -> bool {
